@@ -60,10 +60,16 @@ def main():
             if not caught and not meta.get("expected_miss"):
                 bad += 1
         else:
-            noisy = {p: v for p, v in r["results"].items() if v["rc"] != 0}
-            verdict = "all %d checks silent" % len(r["results"]) if not noisy else "FALSE ALARM " + "; ".join(
-                "%s rc=%d %s%s" % (p, v["rc"], ",".join(v["rules"]), ",".join(v["broken"])) for p, v in sorted(noisy.items()))
+            ki = json.load(open(os.path.join(VERIF, "seeded", n, "meta.json"))).get("known_imprecision", {})
+            alarms = {p: v for p, v in r["results"].items() if v["rc"] != 0}
+            noisy = {p: v for p, v in alarms.items() if p not in ki}
+            doc = {p: v for p, v in alarms.items() if p in ki}
+            fmt = lambda d: "; ".join("%s rc=%d %s%s" % (p, v["rc"], ",".join(v["rules"]), ",".join(v["broken"])) for p, v in sorted(d.items()))
+            verdict = "all %d checks silent" % len(r["results"]) if not alarms else ""
+            if doc:
+                verdict += "%d checks silent; documented imprecision (feature control): %s" % (len(r["results"]) - len(alarms), fmt(doc))
             if noisy:
+                verdict += (" ; " if verdict else "") + "FALSE ALARM " + fmt(noisy)
                 bad += 1
         lines.append("| %s | %s | %s | %s |" % (n, r["kind"], r.get("property") or "-", verdict))
     if not sys.argv[1:]:
